@@ -59,6 +59,8 @@ type Env struct {
 	// heap parameterisation for spec-func bodies: if non-nil, tag reads go through this map
 	heapParams map[string]string
 	usedTags   map[string]bool
+	// renamed-local recovery: loop-carried values not referred to by name in the invariants
+	spare []tv
 }
 
 func (e *Env) child() *Env {
@@ -382,6 +384,11 @@ func (e *Env) ident(name string) (tv, error) {
 	if p := e.eng.pkgByName(name); p != nil {
 		return tv{ty: &SType{Kind: "pkg", Pkg: p}}, nil
 	}
+	if len(e.spare) == 1 {
+		// a local named in the invariant no longer exists; exactly one loop-carried value is unnamed: re-bind
+		e.g.notes = append(e.g.notes, fmt.Sprintf("invariant identifier %q re-bound to the only unnamed loop-carried value", name))
+		return e.spare[0], nil
+	}
 	return tv{}, fmt.Errorf("unknown identifier %q", name)
 }
 
@@ -505,7 +512,7 @@ func (e *Env) index(n *EIndex) (tv, error) {
 	case "go":
 		switch u := x.ty.Go.Underlying().(type) {
 		case *types.Slice:
-			ref := fmt.Sprintf("(idx (sarr %s) (+ (soff %s) %s))", x.t, x.t, i.t)
+			ref := fmt.Sprintf("(sidx %s %s)", x.t, i.t)
 			return tv{t: e.load(ref, u.Elem(), ""), ty: goT(u.Elem()), ref: ref}, nil
 		case *types.Map:
 			d, v, _ := e.g.mapTags(u)
@@ -622,6 +629,19 @@ func (e *Env) call(n *ECall) (tv, error) {
 			return tv{}, err
 		}
 		return tv{t: as[0].t, ty: stInt}, nil
+	case "wrap_int32", "wrap_int64", "wrap_uint32", "wrap_uint64", "wrap_uint8", "wrap_int":
+		as, err := args()
+		if err != nil {
+			return tv{}, err
+		}
+		kinds := map[string]types.BasicKind{"wrap_int32": types.Int32, "wrap_int64": types.Int64, "wrap_uint32": types.Uint32, "wrap_uint64": types.Uint64, "wrap_uint8": types.Uint8, "wrap_int": types.Int}
+		return tv{t: wrapTo(as[0].t, types.Typ[kinds[n.Fn]]), ty: stInt}, nil
+	case "bitor", "bitand":
+		as, err := args()
+		if err != nil {
+			return tv{}, err
+		}
+		return tv{t: e.g.bitOp(map[string]string{"bitor": "or", "bitand": "and"}[n.Fn], as[0].t, as[1].t), ty: stInt}, nil
 	case "float64":
 		as, err := args()
 		if err != nil {
@@ -696,6 +716,14 @@ func (e *Env) specCall(sf *SpecFunc, args []tv) (tv, error) {
 	for i, a := range args {
 		if a.ty.Kind == "nil" {
 			a = tv{t: e.sc.sorts.zero(info.paramTypes[i].Go), ty: info.paramTypes[i]}
+		}
+		// an addressable value may be passed where a pointer is expected (implicit &)
+		if pt := info.paramTypes[i]; pt.Kind == "go" && a.ty.Kind == "go" && a.ref != "" {
+			if _, isPtr := pt.Go.Underlying().(*types.Pointer); isPtr {
+				if _, argPtr := a.ty.Go.Underlying().(*types.Pointer); !argPtr {
+					a = tv{t: a.ref, ty: pt}
+				}
+			}
 		}
 		as = append(as, a.t)
 	}
@@ -967,11 +995,7 @@ func (g *Gen) loopEnv(li *loopInfo, st *State, phiVals map[*ssa.Phi]string) *Env
 	}
 	for name, vs := range byName {
 		if _, shadow := e.vars[name]; shadow {
-			if len(vs) == 1 {
-				if _, isParam := vs[0].(*ssa.Parameter); isParam {
-					continue
-				}
-			}
+			continue // parameters (and lets) are never shadowed by a local of the same name
 		}
 		var cands []ssa.Value
 		for _, v := range vs {
@@ -991,6 +1015,9 @@ func (g *Gen) loopEnv(li *loopInfo, st *State, phiVals map[*ssa.Phi]string) *Env
 		}
 	}
 	for name, a := range addrByName {
+		if _, shadow := e.vars[name]; shadow {
+			continue
+		}
 		if al, ok := a.(*ssa.Alloc); ok {
 			et := al.Type().Underlying().(*types.Pointer).Elem()
 			if !g.escape[al] {
@@ -1032,6 +1059,26 @@ func (g *Gen) loopEnv(li *loopInfo, st *State, phiVals map[*ssa.Phi]string) *Env
 		bindPhis(p.header, nil)
 	}
 	bindPhis(h, phiVals)
+	if lc := g.loopContract(li); lc != nil {
+		text := ""
+		for _, c := range lc.Invariants {
+			text += " " + c.Text
+		}
+		toks, _ := lex(text)
+		used := map[string]bool{}
+		for _, t := range toks {
+			if t.kind == "ident" {
+				used[t.val] = true
+			}
+		}
+		for _, ins := range h.Instrs {
+			if phi, ok := ins.(*ssa.Phi); ok && phi.Comment != "rangeindex" && phi.Comment != "" && !used[phi.Comment] {
+				if v, ok := e.vars[phi.Comment]; ok {
+					e.spare = append(e.spare, v)
+				}
+			}
+		}
+	}
 	// visited set of a map range feeding this loop
 	for _, ins := range h.Instrs {
 		if nx, ok := ins.(*ssa.Next); ok {
